@@ -37,6 +37,7 @@
 From ASModel Require Import Base State Orderings_gen Step Run Progress Hist Local Inv InvTl InvProto InvStep Sum StepCases.
 From ASModel Require Import GenDefs Gen1 Gen2 Gen EnvDefs Env4 Env AccDefs Acc1 Acc2 Acc3 Acc4 Acc5 Acc6 Acc7 Acc.
 From ASModel Require Import ProtDefs Prot1 Prot11 Prot16 Prot Typed LinDefs Lin2 Lin Safe1 Safe2 Safe7 Safe8 Safe Main.
+From ASModel Require Import Stale StaleInv.
 
 Theorem C12_only_own_storage : forall cf s t x c,
   store_effect c (mem (sh s)) (mem (sh (fst (step cf s t x)))) (snd (step cf s t x))
@@ -106,3 +107,21 @@ Print Assumptions C12_guard_drop.
 Print Assumptions C12_load_own_container.
 Print Assumptions C12_help_same_container.
 Print Assumptions C12_accounting.
+
+(** ** With stale first reads of the fast path ([Stale.step_stale], see Props/C01.v). *)
+Theorem C12_load_own_container_stale cf inits progs sched :
+  RunOKS cf inits progs sched ->
+  let s0 := init_state inits progs in
+  forall t i c h (full : bool) pa pb xa tb xb,
+  nth_error (t_prog (thr s0 t)) (N.to_nat i) = Some (if full then CLoadFull c h else CLoad c h) ->
+  (pa <= pb)%nat ->
+  nth_error sched pa = Some (t, xa) ->
+  t_status (thr (StS cf s0 sched pa) t) = Running -> t_stack (thr (StS cf s0 sched pa) t) = [] ->
+  t_cmdi (thr (StS cf s0 sched pa) t) = i ->
+  nth_error sched pb = Some (tb, xb) ->
+  t_cmdi (thr (StS cf s0 sched pb) t) = i -> t_cmdi (thr (StS cf s0 sched (S pb)) t) = i + 1 ->
+  exists v k, handle_ptr (hnd (StS cf s0 sched (S pb)) h) = Some v /\
+    (pa + 1 <= k <= pb + 1)%nat /\ mem (sh (StS cf s0 sched k)) (LStore c) = v.
+Proof. exact (StaleInv10.C12_load_own_container_stale cf inits progs sched). Qed.
+
+Print Assumptions C12_load_own_container_stale.
